@@ -263,6 +263,8 @@ factory!(T2W2, Toy<U2, U2>, "toy", ige = yes, ctr32 = no, ctr64 = no, ctr128 = n
 factory!(T2W3, Toy<U2, U3>, "toy", ige = yes, ctr32 = no, ctr64 = no, ctr128 = no, belt = no);
 factory!(T3W1, Toy<U3, U1>, "toy", ige = yes, ctr32 = no, ctr64 = no, ctr128 = no, belt = no);
 factory!(T3W2, Toy<U3, U2>, "toy", ige = yes, ctr32 = no, ctr64 = no, ctr128 = no, belt = no);
+factory!(T3W5, Toy<U3, U5>, "toy", ige = yes, ctr32 = no, ctr64 = no, ctr128 = no, belt = no);
+factory!(T4W6, Toy<U4, U6>, "toy", ige = yes, ctr32 = yes, ctr64 = no, ctr128 = no, belt = no);
 factory!(T4W1, Toy<U4, U1>, "toy", ige = yes, ctr32 = yes, ctr64 = no, ctr128 = no, belt = no);
 factory!(T4W3, Toy<U4, U3>, "toy", ige = yes, ctr32 = yes, ctr64 = no, ctr128 = no, belt = no);
 factory!(T5W4, Toy<U5, U4>, "toy", ige = yes, ctr32 = no, ctr64 = no, ctr128 = no, belt = no);
@@ -302,6 +304,8 @@ pub fn all_factories() -> Vec<Box<dyn Factory>> {
         Box::new(T2W3),
         Box::new(T3W1),
         Box::new(T3W2),
+        Box::new(T3W5),
+        Box::new(T4W6),
         Box::new(T4W1),
         Box::new(T4W3),
         Box::new(T5W4),
